@@ -16,6 +16,7 @@ def step (line : String) : String :=
   | "c05h" :: args => Handles.runLine args
   | "c10" :: args => Ioapi.run args
   | "c07" :: args => NcStore.run args
+  | "c19" :: args => Icartt.run args
   | "bin" :: args => Camx.runBin args
   | _ => "err bad-stream"
 
